@@ -19,6 +19,7 @@ PARTS = [
 ]
 
 ASSUME = [
+    'size sweep (TestVerifC18Sizes): 1301 client messages whose texts grow one byte at a time (stored entries of every size from about 90 to 1500 bytes), all retained, go through FSM.Apply -> Snapshot -> Persist -> Restore in both encodings; every one must be in the restored log copy with the payload it was stored with',
     'node tier (TestVerifC18Cache): twelve messages of alternating lengths are posted through the real handler of an in-process node (protobuf and JSON); after every one, every earlier entry is read through the durable log store and through raft\'s log cache in front of it (from which lagging followers are served): same bytes, and both decode to the message that was posted',
     'messages: the 9 declared robust.Type values, valid UTF-8 text only (protobuf string fields and JSON are not defined on other bytes); InterestingFor is not part of either encoding; '
     'robust.MessageOffset is 0 in the test binary (the offset is applied by the caller through IdFromRaftIndex, not by the decoder)',
@@ -111,6 +112,7 @@ def run(tier):
     if not only:
         import apidrive
         rc = vlib.run_workers(apidrive.build(), 'TestVerifC18Cache', 1, env={'GOMAXPROCS': '2'})
+        rc += vlib.run_workers(apidrive.build(), 'TestVerifC18Sizes', 1, env={'GOMAXPROCS': '2'})
         for r in rc:
             for v in r.get('violations') or []:
                 if v['sig'] not in bysig:
